@@ -150,6 +150,19 @@ Definition kf_C08 (w : sched) (sg : cstate * option cgen) : list nat :=
 Definition kf_C14_order (w1 w2 : sched) (p : project) (c : config) : bool :=
   negb (tree_eqb (fp w1 p c) (fp w2 p c)).
 
+(* C14: the two runs differ only in how the project path is spelled (./src-tauri, src-tauri, absolute):
+   file_path, which follows the spelling, is part of hash_commands / hash_structs *)
+Definition erase_cmd (k : command) : command :=
+  {| c_name := c_name k; c_file := []; c_line := c_line k; c_params := c_params k; c_ret := c_ret k;
+     c_async := c_async k; c_chans := c_chans k; c_rename_all := c_rename_all k |}.
+Definition erase_struct (s : struct) : struct :=
+  {| s_name := s_name s; s_file := []; s_enum := s_enum s; s_fields := s_fields s; s_rename_all := s_rename_all s |}.
+Definition erase_paths (p : project) : project :=
+  map (fun f => {| sf_path := []; sf_cmds := map erase_cmd (sf_cmds f); sf_structs := map erase_struct (sf_structs f);
+                   sf_events := sf_events f |}) p.
+Definition kf_C14_path (w : sched) (p1 p2 : project) (c : config) : bool :=
+  negb (tree_eqb (fp w p1 c) (fp w p2 c)) && tree_eqb (fp w (erase_paths p1) c) (fp w (erase_paths p2) c).
+
 (* ---- observations compared with the real tool ---- *)
 Definition stale (w : sched) (st : cstate) : list fname * list fname :=
   let fs := files w (s_src st) (s_cfg st) in
